@@ -140,18 +140,67 @@ Theorem C06_progress_aftergen_std_de : forall F (flt : F -> F -> bool) (ops : st
 Proof. exact aftergen_progress_std_de. Qed.
 Print Assumptions C06_progress_aftergen_std_de.
 
-(* FULL statement wanted: try_add_to_layer succeeds for every draw stream in
-   which each draw is below the size of the layer being sampled at that moment.
-   Proved (partial in the draws only): for streams whose draws are below the size
-   of EVERY layer; termination within (layers - layer) recursive calls and the
-   absence of any out-of-range layer/member access are established in full. *)
-Theorem C06_progress_try_add_partial : forall F (flt : F -> F -> bool) fuel e (p : population F) layer inc ds,
+(* ALPS.  [sigma i n] is the value an arbitrary random source returns to the
+   i-th call random::sup(n); the only assumption is its contract sigma i n < n.
+   [gen_try_add] lists sigma's answers in the order try_add_to_layer makes its
+   calls (each draw is only required to be below the size of the layer that call
+   samples).  From any population satisfying the invariant, try_add_to_layer then
+   succeeds, consumes exactly those draws, terminates within layers - layer
+   recursive calls and keeps the invariant. *)
+Theorem C06_progress_try_add : forall F (flt : F -> F -> bool) (sigma : nat -> nat -> nat),
+  (forall i n, (0 < n)%nat -> (sigma i n < n)%nat) ->
+  forall fuel e (p : population F) layer inc i,
   PL F p -> (layer < length p)%nat -> (length p - layer <= fuel)%nat ->
-  (forall d ly, In d ds -> In ly p -> (d < length (members ly))%nat) ->
-  (S (e_tournament e) * (length p - layer) <= length ds)%nat ->
-  exists r, try_add flt fuel e p layer inc ds = Some r.
-Proof. exact try_add_total_partial. Qed.
-Print Assumptions C06_progress_try_add_partial.
+  exists p' b, (forall rest, try_add flt fuel e p layer inc (gen_try_add F flt sigma fuel e p layer inc i ++ rest)
+                             = Some (p', b, rest)) /\ PL F p' /\ length p' = length p.
+Proof. exact try_add_oracle. Qed.
+Print Assumptions C06_progress_try_add.
+
+(* a whole ALPS step: valid selection draws + an offspring honouring the
+   contract of recombination::base::run + any random source for the replacement
+   (the draws [ds] are its answers in call order) => accepted *)
+Theorem C06_progress_step_alps : forall F (flt : F -> F -> bool) (ops : stat_ops) (sigma : nat -> nat -> nat),
+  (forall i n, (0 < n)%nat -> (sigma i n < n)%nat) ->
+  forall e (s : state F) layer pk0 pk1 pks k o, nat ->
+  e_strat e = Alps -> PL F (pop s) -> (layer < length (pop s))%nat -> length pks = e_tournament e ->
+  pick_draw_ok F (pop s) layer P1 pk0 -> pick_draw_ok F (pop s) layer P1 pk1 ->
+  (forall pk, In pk pks -> pick_draw_ok F (pop s) layer (e_p_same e) pk) ->
+  (forall r1 x1 x2 parents, alps_select flt e (pop s) layer pk0 pk1 pks = Some parents ->
+     hd_error parents = Some r1 -> get (pop s) r1 = Some x1 -> get (pop s) (second parents r1) = Some x2 ->
+     base_offspring_ok F e x1 x2 k o) ->
+  exists ds s', step_ok flt ops e s (EStep (SelAlps layer pk0 pk1 pks) (RecBase k) o ds) = Some s'.
+Proof. exact step_progress_alps. Qed.
+Print Assumptions C06_progress_step_alps.
+
+(* the same for both ALPS strategies (alps_es, de_alps_es) with the
+   recombination left abstract: whatever offspring the recombination model
+   accepts for the selected parents (its own totality: recombine_base_total /
+   recombine_de_total) *)
+Theorem C06_progress_step_alps_any_recombination : forall F (flt : F -> F -> bool) (ops : stat_ops) (sigma : nat -> nat -> nat),
+  (forall i n, (0 < n)%nat -> (sigma i n < n)%nat) ->
+  forall e (s : state F) layer pk0 pk1 pks rd o, nat ->
+  is_alps e = true -> PL F (pop s) -> (layer < length (pop s))%nat -> length pks = e_tournament e ->
+  pick_draw_ok F (pop s) layer P1 pk0 -> pick_draw_ok F (pop s) layer P1 pk1 ->
+  (forall pk, In pk pks -> pick_draw_ok F (pop s) layer (e_p_same e) pk) ->
+  (forall parents, alps_select flt e (pop s) layer pk0 pk1 pks = Some parents -> recombine e (pop s) parents rd o = Some o) ->
+  exists ds s', step_ok flt ops e s (EStep (SelAlps layer pk0 pk1 pks) rd o ds) = Some s'.
+Proof. exact step_progress_alps_gen. Qed.
+Print Assumptions C06_progress_step_alps_any_recombination.
+
+(* the end of a generation under ALPS: for ANY analyzer statistics (one entry
+   per layer), any floating-point predicates [ops], any random source: there is
+   a number n of individuals to create (what add_layer / init_layer creates) such
+   that every list of n fresh individuals is accepted *)
+Theorem C06_progress_aftergen_alps : forall F (flt : F -> F -> bool) (ops : stat_ops) (sigma : nat -> nat -> nat),
+  (forall i n, (0 < n)%nat -> (sigma i n < n)%nat) ->
+  forall e (s : state F) (st : stats), nat ->
+  is_alps e = true -> env_ok e -> 0 < e_age_gap e -> PL F (pop s) ->
+  (length (pop s) <= length (fit_mean st))%nat -> (length (pop s) <= length (fit_sd st))%nat ->
+  (length (pop s) <= length (age_mean st))%nat ->
+  exists n, forall news : list (ind F), length news = n -> fresh news = true ->
+    exists ds s', step_ok flt ops e s (EAfterGen (mkAg st ds news)) = Some s'.
+Proof. exact aftergen_progress_alps. Qed.
+Print Assumptions C06_progress_aftergen_alps.
 
 (* ---- parameter tuning (model of the repaired src_search: typeid of the object) ---- *)
 Theorem C06_tune_fills_every_open_parameter : forall (ln_floor cube_log2 : Z -> Z),
